@@ -39,6 +39,7 @@ SCENARIOS.append({"store": "cold", "shape": "same", "backend": "fsc", "threads":
 SCENARIOS.append({"store": "warm-cache", "shape": "same", "backend": "fsc", "threads": 3})
 SCENARIOS.append({"store": "cold", "shape": "presented", "backend": "fsc", "threads": 3})
 SCENARIOS.append({"store": "cold", "shape": "override-shared", "backend": "fs", "threads": 2})
+SCENARIOS.append({"store": "cold", "shape": "partitions", "backend": "fs", "threads": 2})
 SCENARIOS.append({"store": "cold", "shape": "override-shared", "backend": "fsc", "threads": 3})
 
 
@@ -54,6 +55,12 @@ def _calls(scn):
     if shape == "override-shared":
         # two different calls publishing different values under one override key
         return [["ck", 1], ["ck2", 1], ["ck", 1]][:n]
+    if shape == "partitions":
+        # two different functions whose results are partitions (an index plus members, written through one shared codec)
+        return [["cpa", 1], ["cpb", 1], ["cpa", 1]][:n]
+    if shape == "batch-forget":
+        # a batch over a memoized and a new element while another thread forgets the memoized one (C15's race family)
+        return [["cv.batch", 1], ["cv.forget", 1]]
     if shape == "presented":
         # one call, presented positionally / through partial application / by keywords
         return [["cp", 1], ["cp.partial", 1], ["cp.kw", 1]][:n]
@@ -72,13 +79,22 @@ def _child(spec):
     scn = spec["scenario"]
     calls = _calls(scn)
     VAL = {1: "value-one", 2: "value-two", 3: "value-three"}
-    for fname in ("cv", "cv2", "cp", "ck"):
+    for fname in ("cv", "cv2", "cp", "ck", "cpa", "cpb"):
         for k, v in VAL.items():
             rt.TABLE[(fname, k)] = (lambda v: (lambda: v))(v)
     for k, v in VAL.items():
         rt.TABLE[("ck2", k)] = (lambda v: (lambda: "other-" + v))(v)
     expected = {"cv": lambda k: VAL[k], "cv2": lambda k: VAL[k], "cc": lambda k: [VAL[k], 1], "cp": lambda k: VAL[k],
-                "cp.partial": lambda k: VAL[k], "cp.kw": lambda k: VAL[k], "ck": lambda k: VAL[k], "ck2": lambda k: "other-" + VAL[k]}
+                "cp.partial": lambda k: VAL[k], "cp.kw": lambda k: VAL[k], "ck": lambda k: VAL[k], "ck2": lambda k: "other-" + VAL[k],
+                "cpa": lambda k: {"a": VAL[k], "b": k}, "cpb": lambda k: {"x": VAL[k], "y": [k, k]},
+                "cv.batch": lambda k: [VAL[k], VAL[k + 1]], "cv.forget": lambda k: None}
+
+    def plain(v):
+        # (results cross a JSON pipe; a partition is reported as the dictionary of its members)
+        from twosigma.memento.partition import Partition
+        if isinstance(v, Partition):
+            return {kk: v.get(kk) for kk in sorted(v.list_keys())}
+        return v
     counter = [0]
 
     def prepare():
@@ -87,7 +103,9 @@ def _child(spec):
         mk = lambda: FilesystemStorageBackend(path=os.path.join(d, "store"), memory_cache_mb=0.5 if scn["backend"] == "fsc" else None)  # noqa: E731
         st = mk()
         venv.set_env(d, {"c": st})
-        if scn["store"] != "cold":
+        if scn["store"] == "warm-first":
+            cfuncs.FUNCS["cv"](1)
+        elif scn["store"] != "cold":
             for fname, k in calls:
                 cfuncs.FUNCS[fname](k)
             if scn["store"] == "warm-cold-cache":
@@ -126,7 +144,10 @@ def _child(spec):
             if r is None:
                 out["results"].append({"unfinished": True})
             elif r[0] == "ok":
-                out["results"].append({"ok": r[1], "want": expected[f](k)})
+                try:
+                    out["results"].append({"ok": plain(r[1]), "want": expected[f](k)})
+                except BaseException as e:  # noqa  (a partition reads its members when asked)
+                    out["results"].append({"exc": type(e).__name__, "msg": "using the returned value: " + str(e)[:200], "where": "use-result"})
             else:
                 import traceback
                 e = r[1]
@@ -143,7 +164,7 @@ def _child(spec):
         rt.take()
         for f, k in sorted({(f, k) for f, k in calls}):
             try:
-                r = cfuncs.FUNCS[f](k)
+                r = plain(cfuncs.FUNCS[f](k))
                 out["recalls"].append({"fn": f, "k": k, "ok": r, "want": expected[f](k), "runs": [x[0] for x in rt.take()]})
             except BaseException as e:  # noqa
                 out["recalls"].append({"fn": f, "k": k, "exc": type(e).__name__, "msg": str(e)[:200], "runs": [x[0] for x in rt.take()]})
@@ -236,6 +257,55 @@ def execute(case, scratch):
 
 def replay(case, ctx):
     return execute(case, ctx.scratch)
+
+
+# -- race families of other properties (C15, C17): the same scheduler, a lighter oracle ---------------------------------
+
+def race_family(scn, scratch, stride):
+    """every one-preemption schedule (every `stride`-th yield point) of scenario `scn`"""
+    ref = sequential_reference(scn, scratch)
+    return [{"kind": "race", "scenario": scn, "preemptions": [[g, t]]} for g in range(0, ref["yields"], stride) for t in range(scn["threads"])]
+
+
+def execute_race(case, scratch, what):
+    """
+    Runs one schedule; oracle: no thread raises, hangs or returns anything but its sequential value, and every call made
+    again afterwards returns its own value. (Nothing is asserted about how often a body runs.)
+    """
+    scn, pre = case["scenario"], case["preemptions"]
+    out = core.Outcome()
+    d = env.fresh_dir(scratch, "c09x-")
+    try:
+        res = proc.forkrun(_child, {"scenario": scn, "base": d, "schedules": [pre]}, timeout=300)[0]
+    finally:
+        env.rm(d)
+    calls = _calls(scn)
+    label = "%s, preemptions %r (taken at %s)" % (what, pre, [t[3] for t in res["taken"]])
+    where = (res["taken"][0][3].rsplit(":", 1)[0] if res["taken"] else "-")
+    if res["deadlock"]:
+        out.violation("%s: deadlock" % label, symptom="deadlock", race=True)
+    for i, r in enumerate(res["results"]):
+        if r.get("unfinished"):
+            if not res["deadlock"]:
+                out.violation("%s: thread %d never finished" % (label, i), symptom="unfinished", race=True)
+        elif "exc" in r:
+            out.violation("%s: thread %d (%s) raised %s: %s at %s" % (label, i, calls[i], r["exc"], r["msg"], r.get("where")),
+                          symptom="exception", exc=r["exc"], where=r.get("where"), race=True)
+        elif r["ok"] != r["want"]:
+            out.violation("%s: thread %d (%s) returned %r, sequential value %r" % (label, i, calls[i], r["ok"], r["want"]), symptom="wrong-value", race=True)
+    if not out.violations:
+        for rr in res.get("recalls", []):
+            if "exc" in rr:
+                out.violation("%s: calling %s(%s) again after the threads finished raised %s: %s" % (label, rr["fn"], rr["k"], rr["exc"], rr["msg"]),
+                              symptom="later-call-raised", exc=rr["exc"], race=True)
+            elif rr["ok"] != rr["want"]:
+                out.violation("%s: calling %s(%s) again after the threads finished returned %r, its own value is %r" % (label, rr["fn"], rr["k"], rr["ok"], rr["want"]),
+                              symptom="later-call-wrong-value", race=True)
+    out.nontrivial = bool(res["taken"])
+    out.labels = ["family:race", "shape:" + scn["shape"]] + (["race:preemption-taken"] if res["taken"] else [])
+    out.nt_key = ["race", scn["shape"], [list(t[:3]) for t in res["taken"]]]
+    out.render = {"scenario": scn, "preemptions": pre, "taken": res["taken"], "where": where}
+    return out
 
 
 def run_shard(ctx):
